@@ -185,18 +185,28 @@ def discharge_with_ia(F, an, entries, sites, tree=None, partitions=True):
             an._reached = {}
             an.memo = {}
             an.ctx_count = {}
+            an.add_obs, an.trip, an.incr = {}, {}, {}
+            an.trip_seen = set()
             _one_pass(F, an, entries, sites, tree)
+            # budget idioms with this partition's own trip counts and increments (joined over partitions they would
+            # combine the chain count of one parameter row with the digit size of another)
+            capacity_budget(F, an, sites)
+            accumulator_budget(F, an, sites)
             for s in sites:
                 per_site[id(s)].append((s.status, s.detail))
                 s.status, s.detail = None, ""
     for s in sites:
         res = per_site[id(s)]
-        if all(r[0] in ("ia", "dead") for r in res):
-            s.status = "dead" if all(r[0] == "dead" for r in res) else "ia"
-            s.detail = res[0][1]
+        if all(r[0] in ("ia", "dead", "budget") for r in res):
+            if any(r[0] == "budget" for r in res):
+                s.status = "budget"
+                s.detail = next(r[1] for r in res if r[0] == "budget")
+            else:
+                s.status = "dead" if all(r[0] == "dead" for r in res) else "ia"
+                s.detail = res[0][1]
         else:
             s.status = None
-            s.detail = next(r[1] for r in res if r[0] not in ("ia", "dead"))
+            s.detail = next(r[1] for r in res if r[0] not in ("ia", "dead", "budget"))
     return sites
 
 
